@@ -120,8 +120,6 @@ def arrows(inp):
     _, specs = m.profile("a", **kw)
     fmin, amin, aerr = 7.5, 1.0, 0.5
     yoff = fmin if sub else 0.0
-    if inp["backend"] == "scipy":
-        yoff = None     # known quirk (DESIGN 0, C07 row): scipy profile passes `arrows` in the subtract_min slot -> y offset not asserted there
     for sp in specs:
         x, y, c = sp["x"], sp["y"], sp["cl"]
         rise = ((x - amin) / aerr) ** 2       # profile of this separable quadratic: other parameter stays at its minimum
